@@ -420,3 +420,67 @@ def number_rules(chk, m, rid):
         chk.decide(R, '%s: units accepted' % fname, got, {want},
                    '%s reads its amount with the units %s; expected the units of %s plus fil, fill, filll (%s)'
                    % (fname, sorted(got, key=repr), 'mudimen' if 'Mu' in fname else 'dimen', list(want)), chk.where(fn))
+
+
+# ---------------------------------------------------------------------------
+# verbatim environments: subclasses pass the scanned tokens through
+# ---------------------------------------------------------------------------
+OVERRIDE_SAMPLE = '''
+class verbatim(VerbatimEnvironment):
+    def invoke(self, tex):
+        tokens = VerbatimEnvironment.invoke(self, tex)
+        tokens.pop()
+        return tokens
+'''
+
+
+def _edits_base_result(fnode):
+    """An invoke() override that obtains the base class result and edits it (or returns something else)."""
+    holders = set()
+    for x in ast.walk(fnode):
+        if isinstance(x, ast.Assign) and isinstance(x.value, ast.Call) and re.search(r'(^|\.)invoke$', M.call_name(x.value)) \
+           and re.search(r'^(super\(.*\)|\w*VerbatimEnvironment|\w+)\.invoke$', M.call_name(x.value)):
+            for t in x.targets:
+                if isinstance(t, ast.Name):
+                    holders.add(t.id)
+    if not holders:
+        return None
+    bad = []
+    for x in ast.walk(fnode):
+        if isinstance(x, ast.Call) and isinstance(x.func, ast.Attribute) and isinstance(x.func.value, ast.Name) and x.func.value.id in holders \
+           and x.func.attr in E.MUTATORS:
+            bad.append(text(x))
+        if isinstance(x, (ast.Assign, ast.AugAssign, ast.Delete)):
+            tg = x.targets if not isinstance(x, ast.AugAssign) else [x.target]
+            for t in tg:
+                if isinstance(t, ast.Subscript) and isinstance(t.value, ast.Name) and t.value.id in holders:
+                    bad.append(text(x))
+                if isinstance(t, ast.Name) and t.id in holders and not isinstance(x, ast.Delete) and isinstance(x, ast.AugAssign):
+                    bad.append(text(x))
+        if isinstance(x, ast.Return) and x.value is not None and isinstance(x.value, ast.Subscript) and isinstance(x.value.value, ast.Name) \
+           and x.value.value.id in holders:
+            bad.append(text(x))
+    return bad
+
+
+def verbatim_override_rules(chk, m, rid):
+    R = chk.rule(rid, 'a subclass of VerbatimEnvironment that overrides invoke() and calls the inherited scanner hands its token '
+                 'list on unchanged (no token of the verbatim text is removed or replaced on the way)', 2)
+    need(_edits_base_result(ast.parse(OVERRIDE_SAMPLE)) == ['tokens.pop()'], 'self-test of the verbatim-override rule failed')
+    VE = m.cls('plasTeX', 'VerbatimEnvironment')
+    n = 0
+    for c in sorted(m.subclasses(VE, strict=True), key=lambda c: c.fullname):
+        n += 1
+        fn = c.methods.get('invoke')
+        if fn is None:
+            chk.ok(R, '%s.invoke' % c.fullname, 'inherited')
+            continue
+        chk.analysed(fn)
+        bad = _edits_base_result(fn.node)
+        if bad is None:
+            chk.ok(R, '%s.invoke' % c.fullname, 'own scanner (does not call the inherited one)')
+            continue
+        chk.verdict(R, '%s.invoke' % c.fullname, not bad,
+                    '%s.invoke edits the token list returned by the inherited verbatim scanner (%s): characters of the verbatim '
+                    'text are lost' % (c.fullname, bad), chk.where(fn), 'passes the tokens through')
+    need(n >= 2, 'subclasses of VerbatimEnvironment not found')
